@@ -140,3 +140,88 @@ func vpH_C18_hist() {
 	vpAssert(cons[0] == truth[0] && cons[1] == truth[1], "applying the returned events in order reproduces the topic's peer set")
 	vpCover(truth[0] && !truth[1] && cons[0], "p0 present at the end")
 }
+
+// sources: the event SOURCES. A real node with topic handles for t0 and t1; the handler for t0 is created by the real
+// Topic.EventHandler (its seeding thunk runs in the event loop — a symbolic membership change may be processed between
+// the call and the thunk); then symbolic remote events on two peers (subscribe / unsubscribe to either topic, inbound
+// stream closed) interleaved with pulls. After draining, folding the returned events gives exactly the members of t0,
+// events alternate per peer starting with a join, and nothing about t1 leaks into t0's stream.
+func vpH_C18_sources() {
+	vpOpt("unwind", 10)
+	nd := vpNewNode("self", vpNodeCfg{router: "floodsub"})
+	ps := nd.ps
+	ps.eval = make(chan func(), 1) // (buffered: the creation call can hand its thunk over without a running loop)
+	peers := []peer.ID{"p0", "p1"}
+	for _, p := range peers {
+		nd.vpAddPeer(p, FloodSubID, true)
+	}
+	t0 := &Topic{p: ps, topic: vpT0, evtHandlers: map[*TopicEventHandler]struct{}{}}
+	t1 := &Topic{p: ps, topic: "t1", evtHandlers: map[*TopicEventHandler]struct{}{}}
+	ps.myTopics[vpT0], ps.myTopics["t1"] = t0, t1
+	// initial membership
+	for _, p := range peers {
+		in0, in1 := vpBool("initially_in_t0"), vpBool("initially_in_t1")
+		if in0 {
+			ps.handleIncomingRPC(vpSubRPC(p, vpT0, true))
+		}
+		if in1 {
+			ps.handleIncomingRPC(vpSubRPC(p, "t1", true))
+		}
+	}
+	event := func() {
+		// (draws unconditional)
+		kind, pi := vpInt("event", 0, 5), vpInt("event_peer", 0, 1)
+		p := peers[pi]
+		switch kind {
+		case 0:
+			ps.handleIncomingRPC(vpSubRPC(p, vpT0, true))
+		case 1:
+			ps.handleIncomingRPC(vpSubRPC(p, vpT0, false))
+		case 2:
+			ps.handleIncomingRPC(vpSubRPC(p, "t1", true))
+		case 3:
+			ps.handleIncomingRPC(vpSubRPC(p, "t1", false))
+		case 4:
+			ps.onClosedIncomingStream(p, FloodSubID)
+		case 5: // nothing
+		}
+	}
+	vpBlocks(func() { t0.EventHandler() }) // parks waiting for the loop to run its thunk
+	event()                              // ... which may process something else first
+	vpAssert(len(ps.eval) == 1, "the creation call handed its thunk to the event loop")
+	(<-ps.eval)()
+	vpFireAll()
+	var h *TopicEventHandler
+	for x := range t0.evtHandlers {
+		h = x
+	}
+	vpAssert(h != nil && len(t0.evtHandlers) == 1, "the handler is registered")
+	cons := []bool{false, false}
+	ctx := context.Background()
+	pull := func() {
+		if len(h.evtLog) > 0 {
+			evt, err := h.NextPeerEvent(ctx)
+			i := 0
+			if evt.Peer == "p1" {
+				i = 1
+			}
+			vpAssert(err == nil && (evt.Peer == "p0" || evt.Peer == "p1"), "events name peers of the topic")
+			vpAssert((evt.Type == PeerJoin) == !cons[i], "events of a peer alternate join / leave, starting with a join")
+			cons[i] = evt.Type == PeerJoin
+		}
+	}
+	for k := 0; k < 2; k++ {
+		event()
+		if vpBool("pull") {
+			pull()
+		}
+	}
+	pull()
+	pull()
+	vpAssert(len(h.evtLog) == 0, "two pulls drain a log over two peers")
+	for i, p := range peers {
+		_, in := ps.topics[vpT0][p]
+		vpAssert(cons[i] == in, "applying the returned events in order reproduces the topic's peer set")
+	}
+	vpCover(cons[0] && !cons[1], "p0 present, p1 absent at the end")
+}
